@@ -623,6 +623,21 @@ func TestC02(t *testing.T) {
 		return c02Case{Data: ref.Eth(w.RouterMAC, c1, 0x0800, ref.IP4(ref.IP4Hdr{TotalLen: -1, TTL: 64, Proto: 17, Checksum: -1, Src: [4]byte{192, 168, 0, 5}, Dst: [4]byte{192, 168, 0, 255}}, udp))}
 	}, func(tb drv.TB, c c02Case) { c02Classify(tb, rec, "port-table", c.Data) })
 
+	// every EtherType value once per payload shape: an IPv4 datagram, an 802.1Q tag in front of one (what a second tag looks
+	// like), an IPv6 datagram with a hop-by-hop header, four opaque bytes. Types the table does not name must come back as
+	// plain Ethernet with the payload at offset 14 whatever follows.
+	{
+		c1 := w.Clients[0]
+		udp := ref.UDP(40000, 53, -1, 0, []byte{1, 2, 3, 4, 5, 6, 7, 8, 9, 10, 11, 12})
+		ip4 := ref.IP4(ref.IP4Hdr{TotalLen: -1, TTL: 64, Proto: 17, Checksum: -1, Src: [4]byte{192, 168, 0, 5}, Dst: [4]byte{192, 168, 0, 255}}, udp)
+		ip6 := ref.IP6(ref.IP6Hdr{PayloadLen: -1, Next: 0, HopLimit: 1, Src: netip.MustParseAddr("fe80::1").As16(), Dst: netip.MustParseAddr("ff02::16").As16()}, append([]byte{58, 0, 5, 2, 0, 0, 1, 0}, ref.ICMP6(netip.MustParseAddr("fe80::1").As16(), netip.MustParseAddr("ff02::16").As16(), 143, 0, make([]byte, 20))...))
+		shapes := [][]byte{ip4, append([]byte{0x81, 0x00, 0x00, 0x05}, ip4...), ip6, {0x81, 0x00, 0x00, 0x01},
+			append([]byte{0x00, 0x05, 0x81, 0x00, 0x00, 0x06, 0x08, 0x00}, ip4...)} // the last: a tag control word, then an inner 802.1Q tag (double tagging)
+		drv.Enum(t, rec, "ethertype-all", 65536*len(shapes), func(i int) c02Case {
+			return c02Case{Data: ref.Eth(w.RouterMAC, c1, uint16(i%65536), shapes[i/65536])}
+		}, func(tb drv.TB, c c02Case) { c02Classify(tb, rec, "ethertype-all", c.Data) })
+	}
+
 	drv.Prop(t, rec, "mutated", 20000, 400000, func(t *rapid.T) c02Case {
 		f := w.Frame(nil).Draw(t, "frame")
 		b, _ := gen.Mutate(t, f.Bytes)
